@@ -640,12 +640,15 @@ class C12(Prop):
     def scenarios(self, rng):
         hs = []
         origs = [1.0, 0.1, 0.3, 1.0 / 3.0, 44100 / 48000, 48000 / 44100, 2.0, 0.5, 7.3, 0.07, 16.0, 1 / 16]
+        tiny_origs = [4e-308, 1e-307]      # a factor of a few above the smallest normal double (fixed-input types only)
         maxs = [1.0, 1.1, 2.0, 3.0, 10.0, 1.5, 1.0000001, 100.0]
         for i in range(self.n):
             kind = rng.choice(gen.ALL)
             if kind in gen.ASYNC:
                 orig = rng.choice(origs) if rng.random() < 0.7 else gen.pick_ratio(rng)
                 maxrel = rng.choice(maxs)
+                if kind in ("fastin", "sincin") and i % 10 == 3:
+                    orig, maxrel = rng.choice(tiny_origs), rng.choice([8.0, 3.0, 2.0])
                 cfg = gen.gen_cfg(rng, kinds=[kind], max_chunk=64)
                 # rebuild the config line with our orig/maxrel
                 p = cfg.line.split()
@@ -668,6 +671,10 @@ class C12(Prop):
                     args.append(("rel", ulps(b, d), "bound%+d" % d))
                 args.append(("rel", b * (1 + 1e-6), "near+"))
                 args.append(("rel", b * (1 - 1e-6), "near-"))
+            if maxrel > 1:
+                for v in (maxrel ** -0.5, maxrel ** 0.5, maxrel ** -0.9):
+                    args.append(("rel", v, "inside"))
+                    args.append(("ratio", orig * v, "inside"))
             for v, c in ((0.0, "zero"), (-0.0, "zero"), (-1.0, "neg"), (5e-324, "subnormal"), (float("nan"), "nan"),
                          (float("inf"), "inf"), (float("-inf"), "inf"), (orig, "orig"), (1e308, "huge")):
                 args.append((rng.choice(["ratio", "rel"]), v, c))
@@ -677,11 +684,13 @@ class C12(Prop):
                 # a third of the setter calls go through the object-safe wrapper trait (`&mut dyn VecResampler`)
                 ops.append(f"0 {name} {hx(v)} {rng.choice([0, 1])}" + (" dyn" if rng.random() < 0.33 else ""))
                 classes.add(c)
-                if rng.random() < 0.3:
+                if rng.random() < 0.3 and orig > 1e-300:
                     ops.append("0 proc - n m r%d" % rng.randint(0, 99))
             chunk = cfg.chunk
             for n in (0, 1, chunk, chunk + 1, max(1, chunk // 2), 2 ** 63, 2 ** 64 - 1):
-                if rng.random() < 0.7:
+                # (ratios next to the smallest normal double: setter decisions only -- processing at 1/ratio ~ 1e307 input
+                # frames per output frame is outside anything the position arithmetic can represent)
+                if rng.random() < 0.7 and orig > 1e-300:
                     ops.append(f"0 chunk {n}")
                     ops.append("0 proc - n m r1")
                     if rng.random() < 0.3:
@@ -787,6 +796,13 @@ class C13(Prop):
             return f"proc {'1' * k} n m r1 ic={k}", "in-and-mask-channels"
         if c < 0.18:
             return f"proc {mask} n m r1 ic={rng.choice([0, max(0, n - 1), n + 1, n + 3])}", "in-channels"
+        if c < 0.26 and n >= 2:
+            # an explicit mask with inactive channels BELOW the offending one: the error names the real channel index
+            k = rng.randint(1, n - 1)
+            m = "".join(rng.choice("01") for _ in range(k - 1)) + "0" + "1" + "".join(rng.choice("01") for _ in range(n - k - 1))
+            m = m[:k - 1] + "0" + m[k:] if k >= 1 else m
+            which = rng.choice(["si", "so"])
+            return f"proc {m} n m r1 {which}={k}:0 em", ("in-empty-masked:%d" % k if which == "si" else "out-empty-masked:%d" % k)
         if c < 0.24:
             return f"proc {mask} n m r1 oc={rng.choice([0, max(0, n - 1), n + 1, n + 2])}", "out-channels"
         if c < 0.40:
@@ -906,9 +922,10 @@ class C13(Prop):
                     break
                 if not st.startswith("err"):
                     bk = h.meta.get("bad_kind", {}).get(kk) or h.meta.get("bad_kind", {}).get(str(kk))
+                    bk0 = (bk or "").split(":")[0]
                     if st.startswith("ok") and gb is not None and (
-                            (bk in ("in-short", "in-empty", "wrapper-malformed") and gb[0] == 0) or
-                            (bk in ("out-short", "out-empty", "wrapper-malformed") and gb[2] == 0)):
+                            (bk0 in ("in-short", "in-empty", "wrapper-malformed", "in-empty-masked") and gb[0] == 0) or
+                            (bk0 in ("out-short", "out-empty", "wrapper-malformed", "out-empty-masked") and gb[2] == 0)):
                         # nothing was required of that buffer, so the call was not malformed after all:
                         # this history says nothing (the twin did not get the call)
                         h.meta["not_malformed"] = True
@@ -923,6 +940,12 @@ class C13(Prop):
                     return out
                 # "the matching Err variant": what is wrong with the call decides the variant
                 bk = h.meta.get("bad_kind", {}).get(kk) or h.meta.get("bad_kind", {}).get(str(kk))
+                if bk and bk.split(":")[0] in ("in-empty-masked", "out-empty-masked"):
+                    ch = bk.split(":")[1]
+                    pre = "err InsufficientInputBufferSize " if bk.startswith("in") else "err InsufficientOutputBufferSize "
+                    if not st.startswith(pre + ch + " "):
+                        out.append(viol("C13", h, kk, info, "wrong-error-payload", {"malformed": bk, "expected": pre + ch, "got": st}))
+                        return out
                 want = {"in-channels": "err WrongNumberOfInputChannels", "in-channels-with-mask": "err WrongNumberOfInputChannels",
                         "in-and-mask-channels": "err WrongNumberOfMaskChannels", "out-channels": "err WrongNumberOfOutputChannels",
                         "mask-length": "err WrongNumberOfMaskChannels", "in-short": "err InsufficientInputBufferSize",
@@ -1342,6 +1365,13 @@ class C09(Prop):
                 h.ops.append("0 proc - n n-1 i")
                 h.ops.append("0 proc 1 n n i" if cfg.nch != 1 else "0 proc 11 n n i")
             hs.append(h)
+        # many channels (33..40): per-call bookkeeping over the channels must not outgrow what the constructor set aside
+        for kind in gen.ALL:
+            cfg = gen.gen_cfg(rng, kinds=[kind], nch=rng.randint(33, 40), max_chunk=48, probe=True, sinc_lens=[8, 16])
+            h = gen.gen_valid_history(rng, cfg, rng.randint(4, 8), ratio_changes="calm", masks="vary", wrappers=False,
+                                      partial=False)
+            h.meta["feats"] = sorted(set(h.meta["feats"]) | {"many-channels", "reset"})
+            hs.append(h)
         # the whole permitted ratio range, its ends included, before the first call and in mid-stream (stepped and ramped):
         # the buffers sized by the constructor must be enough for every ratio the setters accept
         for i in range(self.n // 3):
@@ -1400,6 +1430,10 @@ def kern_wave_value(spec, k, index, length):
     if kind == "dyn":
         e = (splitmix64(h) % 81) - 40
         return noise * (2.0 ** e)
+    if kind == "s32":
+        return noise * 2.0 ** -140
+    if kind == "s64":
+        return noise * 2.0 ** -1040
     if kind == "poi":
         return noise if index <= k < index + length else float("nan")
     raise ValueError(spec)
@@ -1487,7 +1521,7 @@ class C15(Prop):
             if ci not in tables:
                 continue
             for _ in range(12 if self.tier == "quick" else 40):
-                wk = rng.choice(["imp", "int", "rnd", "dyn", "poi"])
+                wk = rng.choice(["imp", "int", "rnd", "dyn", "poi", "s32" if ty == "f32" else "s64"])
                 index = rng.randint(0, 40)
                 wavelen = index + ln + rng.randint(1, 9)
                 sub = rng.randrange(osf)
@@ -1534,7 +1568,9 @@ class C15(Prop):
             exact = sum(Fraction(wave[index + k]) * Fraction(taps[k]) for k in range(ln))
             bound = sum(abs(Fraction(wave[index + k]) * Fraction(taps[k])) for k in range(ln))
             eps = 2.0 ** -23 if ty == "f32" else 2.0 ** -52
-            if abs(Fraction(v) - exact) > Fraction(eps) * (ln + 8) * bound + Fraction(1, 10 ** 300):
+            # absolute floor: in the subnormal range every operation rounds to a multiple of the smallest subnormal
+            tiny = Fraction(2) ** (-149 if ty == "f32" else -1074)
+            if abs(Fraction(v) - exact) > Fraction(eps) * (ln + 8) * bound + (ln + 8) * tiny:
                 viols.append({"property": "C15", "kind": kd, "clause": "kernel-differs-from-dot-product", "calm": True,
                               "step": 0, "op": qlines[li],
                               "detail": {"got": v, "exact": float(exact), "sum_abs_products": float(bound)},
@@ -1564,7 +1600,7 @@ class C15(Prop):
                 else:
                     a, b = dec(r[2:], ty), dec(m[2:], ty) if m.startswith("v ") else float("nan")
                     eps = 2.0 ** -23 if ty == "f32" else 2.0 ** -52
-                    if not abs(a - b) <= eps * (ln + 8) * bound + 1e-300:
+                    if not abs(a - b) <= eps * (ln + 8) * bound + (ln + 8) * 2.0 ** (-149 if ty == "f32" else -1074):
                         disag.append({"what": "kernel-model-tolerance", "op": qlines[li], "real": r, "model": m})
         cov = {"evaluations": len(qlines) + len(lines), "traces_validated_against_impl": len(mq), "distinct": distinct,
                "dist": {"kernels": kinds, "unavailable": sorted(unavailable), "configs": len(cfgs),
@@ -1777,6 +1813,22 @@ class C04(Prop):
                     ops += [f"0 proc - {big} m {sg}", f"1 proc - n m {sg}"]
             hs.append(History(ops, {"cfg": cfg.line, "kind": cfg.kind, "ty": cfg.ty, "feats": ["oversized-twin", "part"],
                                     "twin_pairs": pairs, "dyn_pairs": dynpairs}))
+        # sizes where chunk*ratio (fixed input) / chunk/ratio (fixed output) is an exact integer for a decimal ratio (the size
+        # estimates sit on a floor/ceil boundary): a call given EXACTLY the advertised sizes must be accepted
+        for kind in gen.ASYNC:
+            for num, den in [(1001, 1000), (1003, 1000), (999, 1000), (13, 10), (11, 10), (7, 10), (441, 160), (3, 10)]:
+                unit = den if kind.endswith("in") else num
+                chunk = unit * rng.randint(1, max(1, 2000 // unit))
+                cfg = gen.gen_cfg(rng, kinds=[kind], max_chunk=4096, nch=1, sinc_lens=[8, 16])
+                p = cfg.line.split()
+                p[2], p[3] = hx(1.0 if num > 1000 or num == 999 else num / den), hx(2.0)
+                p[5 if kind.startswith("fast") else 9] = str(chunk)
+                cfg.line = " ".join(p)
+                ops = [cfg.new(0), "0 get", "0 proc - n n i"]
+                if num > 1000 or num == 999:
+                    ops += [f"0 rel {hx(num / den)} 0", "0 get", "0 proc - n n i", "0 proc - n n i"]
+                hs.append(History(ops, {"cfg": cfg.line, "kind": kind, "ty": cfg.ty, "feats": ["integer-product-size", "ratio-step"],
+                                        "all_valid": True}))
         # a rejected call (wrong number of output channels: refused whatever sizes are currently asked for) consumes and
         # produces nothing: every promise must hold unchanged for the calls that follow it -- every type, twice
         for i in range(2 * len(gen.ALL)):
@@ -1861,6 +1913,11 @@ class C04(Prop):
                 if g[2] > g[3]:
                     out.append(viol("C04", h, k, info, "out-next-exceeds-max", {"getters": g}, model_same=ms))
                     break
+            if name == "proc" and st.startswith("err") and h.meta.get("all_valid"):
+                # buffers of exactly the advertised sizes were refused
+                out.append(viol("C04", h, k, info, "advertised-sizes-refused", {"got": st, "getters_before": gb},
+                                model_same=(fm is not None and fm["status"] == st)))
+                break
             if name in ("proc", "part") and st.startswith("ok") and gb is not None:
                 a = st.split()
                 nin, nout = int(a[1]), int(a[2])
@@ -1936,6 +1993,10 @@ class C07(Prop):
                     # a rejected call (wrong number of output channels) takes and gives nothing: it must not show in the accounts
                     ops.append(f"0 proc - n m z oc={cfg.nch + 1}")
                     feats.add("rejected-call")
+                elif c < 0.155:
+                    # reset(): the accounts start again from zero, exactly like those of a new instance
+                    ops.append("0 reset")
+                    feats.add("reset")
                 else:
                     # the frame accounting must not depend on which channels are active (all-false masks included)
                     mk = "-" if rng.random() < 0.8 else rng.choice(["0" * cfg.nch, gen.rand_mask(rng, cfg.nch)])
@@ -2092,6 +2153,12 @@ class C05(Prop):
                             feats.add("set_chunk_size")
                         insz = rng.choice(["n", "n", "m", "n+5", "m+9"])
                         ops.append(f"{slot} proc - {insz} m {sig} dump")
+                if rng.random() < 0.3:
+                    # refused calls (wrong number of output channels) in the first stream only
+                    first = [k for k, o in enumerate(ops) if o.startswith("0 proc")]
+                    for _ in range(2):
+                        ops.insert(rng.choice(first), f"0 proc - n m {sig} dump oc={cfg.nch + 1}")
+                    feats.add("rejected-call")
                 hs.append(History(ops, {"cfg": cfg.line, "kind": kind, "ty": cfg.ty, "feats": sorted(feats),
                                         "pair": (p[1], p2[1]), "chunks": (ca, cb), "fft": False,
                                         "exact": cfg.line.endswith("probe") and sig == "i"}))
@@ -2122,19 +2189,28 @@ class C05(Prop):
                 ty = rng.choice(["f64", "f32"])
                 nch = rng.choice([1, 2])
                 s1, s2 = rng.choice([1, 2, 3]), rng.choice([1, 2, 4])
+                cin = fi * s1
+                if ri // g > 1 and rng.random() < 0.4:
+                    # a request SHORTER than one block that still resolves to the same block sizes: input is carried over from
+                    # call to call and most calls complete no block or one
+                    s1, cin = 1, fi - rng.randint(1, ri // g - 1)
                 lines = [f"{ty} fftio {ri} {ro} {fi} {nch}",
-                         f"{ty} fftin {ri} {ro} {fi * s1} {s1} {nch}",
+                         f"{ty} fftin {ri} {ro} {cin} {s1} {nch}",
                          f"{ty} fftout {ri} {ro} {fo * s2} {s2} {nch}"]
                 ops = [f"{k} new {l}" for k, l in enumerate(lines)]
                 # inputs are sometimes longer than needed (the documented way to reuse one allocate-sized buffer): the frames
                 # behind the consumed ones are the NEXT frames of the stream and must not influence anything
                 over = rng.random() < 0.6
-                for slot, per in ((0, fi), (1, fi * s1), (2, fi)):
+                rej = rng.random() < 0.5
+                for slot, per in ((0, fi), (1, cin), (2, fi)):
                     for j in range(max(2, min(400, total // per))):
                         insz = rng.choice(["n", "m", f"n+{fi}", f"n+{2 * fi + 3}"]) if over else "n"
+                        if rej and rng.random() < 0.1:
+                            # a refused call (wrong number of output channels) takes nothing and must leave no trace
+                            ops.append(f"{slot} proc - {insz} m {sig} dump oc={nch + 1}")
                         ops.append(f"{slot} proc - {insz} m {sig} dump")
                 hs.append(History(ops, {"cfg": lines[1], "kind": "fft", "ty": ty, "feats": ["fft-variants"],
-                                        "pair": ("fftio", "fftin", "fftout"), "chunks": (fi, fi * s1, fo * s2), "fft": True}))
+                                        "pair": ("fftio", "fftin", "fftout"), "chunks": (fi, cin, fo * s2), "fft": True}))
         # output chunks SHORTER than the ratio (1-3 frames when up-sampling by 2.2 .. 50): many calls of the fixed-output types
         # need no new input at all, and the fixed-input ones produce bursts; against an ordinary chunking of the same stream
         for kind in gen.ASYNC:
@@ -2287,6 +2363,11 @@ class C06(Prop):
                     form = f"ratio {hx(r)}" if rng.random() < 0.5 else f"rel {hx(rel)}"
                     ops.append(f"0 {form} {ramp}" + (" dyn" if rng.random() < 0.4 else ""))
                     feats.add("ratio-ramp" if ramp else "ratio-step")
+                    if ramp and rng.random() < 0.4:
+                        # the same value again, this time WITHOUT ramp, before any frame has been produced: the pending ramp
+                        # is cancelled and the next chunk runs at the new ratio from its first frame
+                        ops.append(f"0 {form} 0")
+                        feats.add("ratio-step")
                 elif c < 0.36 and kind.startswith("sinc"):
                     ops.append(f"0 chunk {rng.randint(1, cfg.chunk)}")
                     feats.add("chunk")
@@ -2506,6 +2587,17 @@ class C11(Prop):
                     for s in range(2 + nch):
                         ops.append(f"{s} chunk {n}")
                     feats.add("chunk")
+            if cfg.kind in ("fastin", "sincin", "fftin", "fftio") and "0" in mask and "1" in mask[mask.index("0"):] \
+                    and rng.random() < 0.7:
+                # a MALFORMED call on the masked instance only (an active channel ABOVE an inactive one gets an empty input;
+                # types that always need input):
+                # it must be refused -- which channels are looked at must not stop at the first inactive one -- and the
+                # streams must go on as before
+                c_bad = mask.index("0") + 1 + mask[mask.index("0") + 1:].index("1")
+                pos = [k for k, o in enumerate(ops) if o.startswith("0 proc")]
+                if pos:
+                    ops.insert(rng.choice(pos), f"0 proc {mask} n m {sg} si={c_bad}:0")
+                    feats.add("malformed-under-mask")
             if i < len(forced) or rng.random() < 0.25:
                 # a second stream after reset() on the same instances, this time WITHOUT a mask: every channel is active
                 # again and, after the reset, comparable with its single-channel twin
@@ -2593,6 +2685,13 @@ class C11(Prop):
         i = 0
         while i < len(recs):
             kk, slot, name, fr = recs[i]
+            if name == "proc" and slot == "0" and " si=" in h.ops[kk]:
+                # the malformed call: refused, nothing written
+                if fr is not None and (not fr["status"].startswith("err InsufficientInputBufferSize") or fr["u"] != "1"):
+                    out.append(viol("C11", h, kk, infos["0"], "malformed-masked-call-not-refused", {"got": h.real[kk][:200]}))
+                    return out
+                i += 1
+                continue
             if name == "proc" and slot == "0" and i + 1 + nch < len(recs) + 0:
                 grp = recs[i:i + 2 + nch]
                 if len(grp) < 2 + nch or any(g[3] is None for g in grp):
@@ -2673,6 +2772,15 @@ class C17(Prop):
             for _ in range(3):
                 ops += [f"0 proc - n m {sg} dump", f"1 proc - n m {sg} dump"]
             hs.append(History(ops, {"cfg": line, "kind": kind, "ty": "f32/f64", "feats": ["proc", "long-calls"]}))
+        # sizes beyond 2^16: a filter table of 2^17 points and an FFT block of more than 2^15 frames (integers of that size are
+        # converted to the sample type when the window, the sinc argument and the FFT normalisation are computed)
+        sg = "r%d" % rng.randint(0, 999)
+        for line in (f"f32 sincin {hx(1.2)} {hx(1.0)} 0 256 512 {hx32(0.9)} {rng.randint(0, 5)} 64 1 auto",
+                     f"f32 fftin 44100 48000 40131 1 1"):
+            ops = [f"0 new {line}", "1 new " + line.replace("f32", "f64", 1)]
+            for _ in range(2):
+                ops += [f"0 proc - n m {sg} dump", f"1 proc - n m {sg} dump"]
+            hs.append(History(ops, {"cfg": line, "kind": line.split()[1], "ty": "f32/f64", "feats": ["proc", "sizes-beyond-2^16"]}))
         return hs
 
     def oracle(self, h):
@@ -2766,8 +2874,10 @@ class C14(Prop):
             ncalls = int(need_in / per_in) + 3
             if ncalls > 6000:
                 continue
-            ops = [cfg.new(0)] + pre + [f"0 proc - n m k{n} dump"] * ncalls
-            fe = ["impulse"]
+            # half of the clips are fed from buffers longer than needed (allowed: only input_frames_next() frames are consumed)
+            insz = "n" if rng.random() < 0.5 else rng.choice(["m", "n+%d" % rng.randint(1, 900), "m+%d" % rng.randint(1, 900)])
+            ops = [cfg.new(0)] + pre + [f"0 proc - {insz} m k{n} dump"] * ncalls
+            fe = ["impulse"] + ([] if insz == "n" else ["oversized-input"])
             if rng.random() < 0.3 and ncalls >= 3:
                 # a rejected call in the middle of the clip: what follows must still line up with output_delay()
                 # (wrong number of output channels: rejected whatever the sizes currently asked for are)
@@ -2953,7 +3063,7 @@ def interp_bound(it, f_cycles, osf):
 
 class ToneProp(Prop):
     stop = False
-    n_quick = 54
+    n_quick = 66
     n_thorough = 600
 
     def scenarios(self, rng):
@@ -2970,9 +3080,12 @@ class ToneProp(Prop):
             fftk = len(hs) - 22 if 22 <= len(hs) < 34 else None
             # stopband check only: eight up-sampling streams (images), every blend type, steep windows, tone high in the band
             imgk = len(hs) - 34 if self.stop and 34 <= len(hs) < 42 else None
+            # stopband check only: twelve streams sweeping the first percent above the promised stopband edge for the two windows
+            # with the tightest bound, requested lengths 65 / 66 / 67 (a single tone can sit in a side-lobe null)
+            swk = len(hs) - 42 if self.stop and 42 <= len(hs) < 54 else None
             if big32:
                 fam, ty = 0.0, "f32"
-            if perwin is not None or imgk is not None:
+            if perwin is not None or imgk is not None or swk is not None:
                 fam, ty = 0.0, "f64"
             if fftk is not None:
                 fam, ty = 1.0, ("f64" if fftk % 4 else "f32")
@@ -2992,18 +3105,22 @@ class ToneProp(Prop):
                 if perwin is not None:
                     # each of the six windows with a short filter, the best interpolation and a tone close to the band edge:
                     # the window's own leakage / rejection figure is what limits the result
-                    win, sl, it, osf = perwin, (64 if not self.stop else 128), 0, 256
+                    # (stopband check: requested lengths 129..131, which make_interpolator must round UP to 136)
+                    win, sl, it, osf = perwin, (64 if not self.stop else 129 + pwj), 0, 256
                     if not self.stop:
                         # the three streams of a window use the three polynomial blends (fine grids: the blend's own error bound
                         # stays below the window's leakage figure)
                         it, osf = [(0, 256), (1, 256), (2, 2048)][pwj]
                     ratio = rng.choice([1.37, 2.0 + 1 / 7, 1.2]) if not self.stop else rng.choice([0.5, 0.4])
+                if swk is not None:
+                    kind = ["sincin", "sincout"][swk % 2]
+                    win, sl, it, osf, ratio = [3, 1][swk // 6], 65 + swk % 3, 0, 256, 0.5
                 if imgk is not None:
                     win, sl = [3, 2, 1, 0][imgk // 2], 128
                     it, osf = [(1, 256), (0, 256), (2, 2048), (3, 128), (1, 128), (0, 64), (3, 64), (1, 256)][imgk]
                     ratio = rng.choice([48000 / 44100, 1.5, 2.0 + 1 / 7, 3.0])
                 cc = calc_cutoff(sl, win)
-                fcut = cc if rng.random() < 0.6 or imgk is not None else rng.choice([0.9, 0.8, 0.95 * cc])
+                fcut = cc if rng.random() < 0.6 or imgk is not None or swk is not None else rng.choice([0.9, 0.8, 0.95 * cc])
                 fcut = struct_f32(fcut)
                 lowmin = min(1.0, ratio)
                 halfw = (1 - cc) / lowmin
@@ -3031,6 +3148,10 @@ class ToneProp(Prop):
                             # just above the stopband edge, where the first side lobes of the window decide the rejection
                             # (three tones per window, 1.5 % of the input Nyquist apart: a single tone can sit in a null)
                             f_in = 0.5 * min(0.998, lo + 0.003 + 0.015 * pwj + rng.uniform(0, 0.008))
+                            if pwj == 0:
+                                f_in = 0.5 * min(0.998, lo + 0.0005 + rng.uniform(0, 0.001))     # right at the promised edge
+                        if swk is not None:
+                            f_in = 0.5 * min(0.998, lo + 0.0004 + 0.0018 * (swk % 6) + rng.uniform(0, 0.0006))
                     else:
                         # upsampling: images of an in-band tone fall beyond the edge when f_cutoff <= calculate_cutoff
                         if fcut > struct_f32(cc):      # (the f32 value calculate_cutoff returns)
@@ -3052,10 +3173,14 @@ class ToneProp(Prop):
                     kind = gen.FFT[fftk % 3]
                     ri, ro = [(48000, 16000), (44100, 48000), (96000, 44100), (3, 2), (48000, 32000), (2, 3),
                               (96000, 48000), (48000, 44100), (16000, 48000), (48000, 16000), (3, 2), (96000, 44100)][fftk]
+                    if fftk == 0:
+                        ri, ro = 44100, 48000
                     if self.stop and ro >= ri:
                         ri, ro = ro, ri
                 g = math.gcd(ri, ro)
                 kmul = rng.choice([1, 2, 4]) if max(ri, ro) // g > 100 else rng.choice([64, 128, 256, 512])
+                if fftk == 0:
+                    kmul = 1
                 if self.stop and fftk in (3, 10):
                     # very short blocks (20..28 frames at the lower rate): the built-in cutoff must keep falling with the
                     # block length for the transition band to stay below the new Nyquist frequency
@@ -3082,6 +3207,11 @@ class ToneProp(Prop):
                     f_in = 0.5 * rng.uniform(min(0.999, lo + 0.01), 0.999)
                 n_in = 8 * fi + int(3000 / lowmin)
                 per = fi
+                if fftk == 0:
+                    # FftFixedIn fed about a quarter of a block per call (the request still resolves to the same block): input
+                    # is carried over from call to call; with refused calls in between (below)
+                    chunk = per = fi // 4 + rng.randint(0, fi // 8)
+                    line = f"{ty} {kind} {ri} {ro} {chunk} {sub} 1"
                 ncalls = n_in // per + 4
                 L = fi
                 meta = {"fam": "fft", "ratio": ratio, "win": 3, "it": None, "osf": None, "fcut": cc, "sl": fi,
@@ -3095,13 +3225,19 @@ class ToneProp(Prop):
                 insz = "n" if (fftk // 6) % 2 == 0 else ["m+%d" % rng.randint(1, 1500), "n+%d" % rng.randint(1, 1500)][fftk % 2]
             call = f"0 proc - {insz} m s{hx(f_in)} dump"
             feats_extra = [] if insz == "n" else ["oversized-input"]
-            if len(hs) % 3 == 2:
-                # every third stream is run the way an application holding a `Box<dyn VecResampler>` runs it: `process()`
+            if len(hs) % 4 == 3:
+                # every fourth stream is run the way an application holding a `Box<dyn VecResampler>` runs it: `process()`
                 # through the wrapper trait, which does not report the consumed count -- the caller advances by the wrapper
                 # trait's own input_frames_next()
                 call = f"0 procw - n s{hx(f_in)} dyn dump"
                 feats_extra = ["dyn-wrapper"]
             ops = [f"0 new {line}"] + [call] * ncalls
+            if (len(hs) % 5 == 1 or fftk == 0) and ncalls >= 6:
+                # a call refused in mid-stream (wrong number of output channels) and simply repeated, as the documentation of
+                # process_into_buffer tells callers to do: the stream must go on as if nothing had happened
+                for _ in range(2 if fftk != 0 else 1):
+                    ops.insert(rng.randint(3, max(4, ncalls // 2)), f"0 proc - n m s{hx(f_in)} dump oc=2")
+                feats_extra = feats_extra + ["rejected-call"]
             if meta["fam"] == "sinc" and rng.random() < 0.5:
                 # "every way of chunking the stream": change the chunk size mid-stream a few times (and feed more calls,
                 # the chunks only get smaller)
